@@ -324,6 +324,8 @@ pub fn cfg_list(full: bool) -> Vec<PairCfg> {
         c.server.recv_window = Some(1200);
         c.server.stream_recv_window = Some(600);
     }));
+    // only the connection-level window binds: every further byte depends on a MAX_DATA frame
+    v.push(mk("connwin1500", &|c| c.server.recv_window = Some(1500)));
     v.push(mk("win63", &|c| {
         c.server.stream_recv_window = Some(63);
         c.server.recv_window = Some(16383);
